@@ -483,9 +483,9 @@ def code_layout_rules(ctx, tk, rule):
 
 
 def _dtype_guard_width(fa, node):
-    for test, truth in fa.cfg.facts_at(node):
-        t = fa.term(test.ast, test)
-        if t.k == "cmp" and t.a[0] == "==" and truth:
+    from .guards import facts_at as _facts
+    for t, truth, test in _facts(fa, node):
+        if t.k == "cmp" and ((t.a[0] == "==" and truth) or (t.a[0] == "!=" and not truth)):
             for o in (t.a[1], t.a[2]):
                 ch = attr_chain(o)
                 if ch and ch[-1] in ("int32", "int64", "int16"):
